@@ -132,8 +132,10 @@ func Concurrent() {
 	vx.Assert("C11.new_ok", err == nil)
 	R, C := vx.Param("R"), vx.Param("C")
 	done := make(chan int, R+C)
+	inside := 0 // readers between the start and the return of their WithBytes call
 	for i := 0; i < R; i++ {
 		go func() {
+			inside++
 			err := s.WithBytes(func(b []byte) error {
 				vx.Assert("C11.reader_sees_original", vx.BytesEq(b, keep))
 				vx.Yield()
@@ -141,6 +143,13 @@ func Concurrent() {
 				vx.Assert("C11.reader_sees_original", vx.BytesEq(b, keep))
 				return nil
 			})
+			inside--
+			if inside == 0 {
+				// no reader call is in progress any more: the pages are inaccessible again - or a Close that was
+				// waiting is already at work on them (read-write for the wipe, then gone) - never left readable,
+				// whether or not a Close is pending
+				vx.Assert("C11.not_left_readable_when_last_reader_returns", vx.MemStateOf(0) != mapped|locked|pRO)
+			}
 			if err != nil {
 				vx.Reach("C11.reader_refused_after_close_began")
 			} else {
